@@ -63,6 +63,7 @@ def gen_small(rng, prop, job):
 
 def make_jobs(prop, tier, seed):
     jobs = plug.std_jobs(prop, tier, seed, "m4", n_quick=16, per_quick=8, schedules=6)
+    jobs.extend(plug.line_jobs(prop, tier, seed))
     # a Queue parks its callers in Lock.wait() on Signals and wakes them through `closed` / tills: the Signal layer (M1) and the
     # Lock's hand-over (M3) are part of every Queue property
     jobs.extend(plug.m1_layer_jobs(prop, tier, seed))
